@@ -112,6 +112,7 @@ fn main() {
             out.finish();
         }
         "c14" => conc::run_c14(&a),
+        "c16" => conc::run_c16(&a),
         "real-sleep" => {
             sentinel_core::verif::clock::off();
             let t = std::time::Instant::now();
